@@ -13,7 +13,7 @@ FILES = {
  "merge.go": "C01 C02 C10", "match.go": "C01 C02 C10", "process1.go": "C10 C08 C09 C06", "get.go": "C10 C13",
  "process2.go": "C12 C13 C14 C06 C07 C10", "repeat.go": "C12", "evalcontext.go": "C12 C13 C09", "output.go": "C11 C19",
  "validate.go": "C07 C06", "finalize.go": "C06 C07 C09", "normalize.go": "C04 C14", "yaml.go": "C04 C05", "toml.go": "C05 C04",
- "json.go": "C05 C04", "parser.go": "C02 C19 C18 C05", "document.go": "C02 C19", "file.go": "C03 C08 C18", "filepath.go": "C03 C20",
+ "json.go": "C05 C04 C14", "parser.go": "C02 C19 C18 C05", "document.go": "C02 C19", "file.go": "C03 C08 C18", "filepath.go": "C03 C20",
  "util.go": "C01 C10 C11 C14 C02", "cmd/bkld/diff.go": "C15 C16", "cmd/bkli/intersect.go": "C16", "cmd/bklr/required.go": "C17",
  "wrapper/wrapper.go": "C20",
 }
@@ -27,8 +27,19 @@ def sh(cmd, cwd=None, timeout=1800):
     return p.returncode, p.stdout.decode("utf-8", "replace")
 
 
+DELETE = os.environ.get("AUTOMUT_DELETE") == "1"      # statement deletion instead of token replacement
+
+
 def sites():
     out = []
+    if DELETE:
+        for f in FILES:
+            src = open(os.path.join("/repo", f)).read().split("\n")
+            for ln, line in enumerate(src):
+                t = line.strip()
+                if re.match(r"^(delete\(|[A-Za-z_][\w\.\[\]\"]*\s*(=|\+=)\s|[a-z][\w\.]*\(.*\)$|continue$|break$)", t) and not t.startswith(("return", "func", "if ", "for ", "case", "defer", "go ")) and ":=" not in t:
+                    out.append((f, ln, 0, len(line), "", line))
+        return out
     for f in FILES:
         src = open(os.path.join("/repo", f)).read().split("\n")
         infunc = False
